@@ -947,3 +947,104 @@ Proof.
 Qed.
 Print Assumptions roundtrip_struct.
 Print Assumptions decode_into_extras.
+
+(* ================= fuel adequacy from the schema alone (non-recursive types) ================= *)
+Section Need.
+Variable e : env.
+
+Lemma need_list_bound x T xs :
+  Forall (fun y => has_type e x y /\ (need y <= T + 2 * length (enc_var e 0 true x None y))%nat) xs ->
+  (need_list xs <= 1 + T + 2 * length (enc_elems e x xs))%nat.
+Proof.
+  induction 1 as [|y r [Hy Hb] _ IH]; cbn [need_list enc_elems length]; [lia|].
+  rewrite app_length. pose proof (enc_var_req_length e 0 x None y Hy). lia.
+Qed.
+Lemma need_entries_bound kt vt T kvs :
+  Forall (fun p => (has_type e kt (fst p) /\ (need (fst p) <= T + 2 * length (enc_var e 0 true kt None (fst p)))%nat) /\
+                   (has_type e vt (snd p) /\ (need (snd p) <= T + 2 * length (enc_var e 1 true vt None (snd p)))%nat)) kvs ->
+  (need_entries kvs <= 1 + T + 2 * length (enc_entries e kt vt kvs))%nat.
+Proof.
+  induction 1 as [|[ky y] r [[Hk Hbk] [Hy Hby]] _ IH]; cbn [need_entries enc_entries length fst snd] in *; [lia|].
+  rewrite !app_length. pose proof (enc_var_req_length e 0 kt None ky Hk). pose proof (enc_var_req_length e 1 vt None y Hy). lia.
+Qed.
+Lemma need_fields_bound (g : ty -> nat) : forall fds vs,
+  Forall2 (fun fd x => (need x <= g (fty fd) + 2 * length (enc_var e (ftag fd) (freq fd) (fty fd) (fdef fd) x))%nat) fds vs ->
+  (need_list vs <= 1 + length fds + tmax g fds + 2 * length (enc_fields e vs fds))%nat.
+Proof.
+  induction 1 as [|fd x fds vs Hb _ IH]; cbn [need_list enc_fields length tmax fold_right]; [lia|].
+  fold (tmax g fds). rewrite app_length. lia.
+Qed.
+
+Lemma fields_bound_aux (g : ty -> nat) fds vs :
+  Forall2 (fun fd x => has_type e (fty fd) x) fds vs ->
+  (forall fd, In fd fds -> forall x tag req d, has_type e (fty fd) x ->
+     (need x <= g (fty fd) + 2 * length (enc_var e tag req (fty fd) d x))%nat) ->
+  Forall2 (fun fd x => (need x <= g (fty fd) + 2 * length (enc_var e (ftag fd) (freq fd) (fty fd) (fdef fd) x))%nat) fds vs.
+Proof.
+  induction 1 as [|fd x fds vs Hx _ IHF]; intros Hb; constructor.
+  - apply Hb; [now left|assumption].
+  - apply IHF. intros fd' Hin. apply Hb. now right.
+Qed.
+
+Lemma need_bound : forall n t v tag req d, tfin n e t = true -> has_type e t v ->
+  (need v <= tneed n e t + 2 * length (enc_var e tag req t d v))%nat.
+Proof.
+  induction n as [|n IH]; intros t v tag req d Hfin Hty; [discriminate|].
+  inversion Hty; subst; cbn [tfin] in Hfin.
+  - assert (need v = 3%nat) as -> by (destruct t; try discriminate; destruct v; cbn [sc_typed] in *; try contradiction; reflexivity).
+    assert (tneed (S n) e t = 3%nat) as -> by (destruct t; try discriminate; reflexivity). lia.
+  - cbn [need tneed]. lia.
+  - rewrite need_VList, enc_var_list. cbn [tneed].
+    assert (Hb : (need_list xs <= 1 + tneed n e x + 2 * length (enc_elems e x xs))%nat).
+    { apply need_list_bound. eapply Forall_impl; [|eassumption]. intros y Hy. split; [assumption|]. now apply IH. }
+    destruct (negb req && _)%bool eqn:Eo.
+    + destruct xs; [cbn [need_list]; lia|]. destruct req; discriminate.
+    + rewrite !app_length. lia.
+  - rewrite need_VList, enc_var_arr. cbn [tneed].
+    assert (Hb : (need_list xs <= 1 + tneed n e x + 2 * length (enc_elems e x xs))%nat).
+    { apply need_list_bound. eapply Forall_impl; [|eassumption]. intros y Hy. split; [assumption|]. now apply IH. }
+    destruct (negb req && _)%bool eqn:Eo.
+    + destruct xs; [cbn [need_list]; lia|]. destruct req; discriminate.
+    + rewrite !app_length. lia.
+  - rewrite need_VMap, enc_var_map. cbn [tneed]. apply andb_true_iff in Hfin. destruct Hfin as [Hfa Hfb].
+    assert (Hb : (need_entries kvs <= 1 + Nat.max (tneed n e kt) (tneed n e vt) + 2 * length (enc_entries e kt vt kvs))%nat).
+    { apply need_entries_bound. eapply Forall_impl; [|eassumption]. intros [ky y] [Hk Hy]. cbn [fst snd] in *.
+      pose proof (IH kt ky 0 true None Hfa Hk). pose proof (IH vt y 1 true None Hfb Hy). repeat split; try assumption; lia. }
+    destruct (negb req && _)%bool eqn:Eo.
+    + destruct kvs; [cbn [need_entries]; lia|]. destruct req; discriminate.
+    + rewrite !app_length. lia.
+  - rewrite need_VStruct, enc_var_struct. cbn [tneed]. rewrite !app_length.
+    assert (Hb : (need_list vs <= 1 + length (fields_of e sid) + tmax (tneed n e) (fields_of e sid)
+                                  + 2 * length (enc_fields e vs (fields_of e sid)))%nat).
+    { apply need_fields_bound. rewrite forallb_forall in Hfin. apply fields_bound_aux; [assumption|].
+      intros fd Hin x tag' req' d' Hx. apply IH; [now apply Hfin|assumption]. }
+    lia.
+Qed.
+
+(* the top level: what the model's fuel 4*len+64 must cover *)
+Lemma need_top n sid vs : tfin n e (TStruct sid) = true -> has_type e (TStruct sid) (VStruct vs) ->
+  (3 + need_list vs <= tneed n e (TStruct sid) + 2 * length (encode e sid (VStruct vs)))%nat.
+Proof.
+  intros Hfin Hty. pose proof (need_bound n (TStruct sid) (VStruct vs) 0 true None Hfin Hty) as H.
+  rewrite need_VStruct, enc_var_struct, !app_length, encode_fields in *. cbn [length head] in H.
+  change (length (head tSB 0)) with 1%nat in H. change (length (head tSE 0)) with 1%nat in H.
+  destruct n; [discriminate|]. cbn [tneed] in *.
+  assert (Hb : (need_list vs <= 1 + length (fields_of e sid) + tmax (tneed n e) (fields_of e sid)
+                                + 2 * length (enc_fields e vs (fields_of e sid)))%nat).
+  { apply need_fields_bound. cbn [tfin] in Hfin. rewrite forallb_forall in Hfin.
+    inversion Hty as [| | | | |? ? Hvs]; subst; [discriminate|]. apply fields_bound_aux; [assumption|].
+    intros fd Hin x tag' req' d' Hx. apply need_bound; [now apply Hfin|assumption]. }
+  lia.
+Qed.
+End Need.
+
+(* C03 with the fuel condition discharged from the schema: for struct types whose type graph is finite *)
+Theorem roundtrip_struct_static e k n sid vs :
+  wf_schema k e -> (S k <= 64)%nat -> tfin n e (TStruct sid) = true -> (tneed n e (TStruct sid) + k <= 64)%nat ->
+  has_type e (TStruct sid) (VStruct vs) ->
+  decode e sid (encode e sid (VStruct vs)) = DOk (norm_struct e sid (VStruct vs)) [].
+Proof.
+  intros Hwf Hk Hfin Hn Hty. apply (roundtrip_struct e k); try assumption.
+  pose proof (need_top e n sid vs Hfin Hty). lia.
+Qed.
+Print Assumptions roundtrip_struct_static.
